@@ -591,4 +591,34 @@ func runC14(c *Cfg) {
 	semverCases(c, r.Sub())
 	mvsCases(c, r.Sub())
 	reqCases(c, r.Sub())
+	opsCases(c, r.Sub())
+	queueCases(c, r.Sub())
+	vmaxCases(c, r.Sub())
+}
+
+// module.Versions.Max and the comparison mvs.buildList derives from it (cmpVersion above is a
+// copy of that closure), on generated version strings plus "none" and "".
+func vmaxCases(c *Cfg, r *Rng) {
+	pool := []string{"", "none", "v0.0.1", "v1.0.0", "v1.0.0+b", "v1.0.0-rc.1", "v1.2.0", "v1.10.0", "None", "v1", "x"}
+	for i := 0; i < 300; i++ {
+		pool = append(pool, genVersion(r))
+	}
+	n := c.Pick(20000, 300000)
+	mv := module.Versions{}
+	for i := 0; i < n; i++ {
+		a, b := Pick(r, pool), Pick(r, pool)
+		if r.Chance(1, 6) {
+			b = a
+		}
+		c.Op("O", "vmax "+H(a)+" "+H(b), H(mv.Max(a, b)))
+		c.Op("O", "mvscmp "+H(a)+" "+H(b), ordName(cmpVersion(a, b)))
+		switch {
+		case a == "" || b == "":
+			c.Count("vmax/main")
+		case a == "none" || b == "none":
+			c.Count("vmax/none")
+		default:
+			c.Count("vmax/ordinary")
+		}
+	}
 }
